@@ -103,13 +103,45 @@ def message_pool(rng: random.Random, hosts=("peer1.x", "peer2.x"), unique=False)
     ]
 
 
+def random_config(rng: random.Random) -> str:
+    """A configuration drawn at random: 1..3 peers (realm, persistent / always-reconnect / reconnect wait / with or without
+    address / default flags, occasional per-peer timers), 0..3 applications (id, auth / acct / both roles, peer subset or
+    none, extra realm), node timers."""
+    host = rng.choice([HOST, HOST, "zz.local"])
+    parts = [f"NODE host={host};realm={REALM}"]
+    if rng.random() < 0.6:
+        parts.append(f"cea={rng.choice([3, 5])};cer={rng.choice([3, 5])};idle={rng.choice([5, 10, 30])};dwa={rng.choice([2, 4])}")
+    npeers = rng.choice([1, 2, 2, 3])
+    for i in range(npeers):
+        realm = rng.choice([REALM, REALM, "other.realm", "Alpha.NET"])
+        per = lambda: rng.choice(["-", "-", "-", str(rng.choice([2, 4, 6]))])       # noqa: E731
+        parts.append(f"peer:peer{i + 1}.x,{realm},{rng.choice([0, 0, 1])},{rng.choice([0, 1])},{rng.choice([2, 5, 30])},"
+                     f"{rng.choice([1, 1, 1, 0])},{rng.choice([0, 0, 1])},{per()},{per()},{per()},{per()}")
+    for _ in range(rng.choice([0, 1, 1, 2, 3])):
+        auth, acct = rng.choice([(1, 0), (1, 0), (0, 1), (1, 1)])
+        ps = [str(k) for k in range(npeers) if rng.random() < 0.6]
+        parts.append(f"app:{rng.choice([4, 4, 3, 1])},{auth},{acct},b,0,{'+'.join(ps) if ps else '-'},{rng.choice(['-', '-', 'other.realm'])}")
+    return ";".join(parts)
+
+
+def dials_at_start(cfg: str) -> int:
+    """number of connections `start` creates: one per persistent peer that has an address"""
+    n = 0
+    for part in cfg.split(";"):
+        if part.startswith("peer:"):
+            f = part[5:].split(",")
+            if f[2] == "1" and f[5] == "1":
+                n += 1
+    return n
+
+
 def random_scenario(rng: random.Random, cfg_name: str, depth: int, unique=False, handshake=0.0) -> str:
     """unique: fresh hop-by-hop id per generated message; handshake: probability
-    that a freshly accepted connection immediately gets a valid CER."""
-    cfg = CONFIGS[cfg_name]
+    that a freshly accepted connection immediately gets a valid CER.  `cfg_name`: a key of CONFIGS or a whole NODE line."""
+    cfg = cfg_name if cfg_name.startswith("NODE ") else CONFIGS[cfg_name]
     _uniq[0] = 100
     evs = []
-    persistent = cfg_name in ("out", "noapp")
+    persistent = cfg_name in ("out", "noapp") or (cfg_name.startswith("NODE ") and dials_at_start(cfg) > 0)
     plans = ["ok", "inp", "fail"]
     evs.append("start " + ",".join(rng.choice(plans) for _ in range(3)) if persistent or rng.random() < 0.3 else "start")
     nconn = 0
